@@ -229,6 +229,8 @@ pub(crate) fn c07_run(threads_form: bool, max_items: u32, do_cut: bool) {
     });
   }
   let exec = &mut exec_box;
+  let cfg = format!("{:?}/{}/{}/{}", op, if threads_form { "threads" } else { "local" }, exec.name(), if cold { "cold" } else if hot_kind == 0 { "handle" } else { "subject" }).chars().filter(|c| !c.is_ascii_digit() && *c != '(' && *c != ')').collect::<String>();
+  e::cfg_begin(&cfg);
   e::note(format!("{:?}{} on {} ; {} source ; input [{}]", op, if threads_form { "_threads" } else { "" }, exec.name(), if cold { "cold" } else if hot_kind == 0 { "hot(create handle)" } else { "hot(Subject)" }, script.show()));
   // cut-point machinery
   let mut points: i64 = 0;
@@ -299,6 +301,7 @@ pub(crate) fn c07_run(threads_form: bool, max_items: u32, do_cut: bool) {
     if !cut_done {
       e::prune();
     }
+    e::cfg_end(&cfg);
     e::cover("c02-sched-path-complete");
     return;
   }
@@ -362,6 +365,7 @@ pub(crate) fn c07_run(threads_form: bool, max_items: u32, do_cut: bool) {
       }
     }
   }
+  e::cfg_end(&cfg);
   e::cover("c07-path-complete");
 }
 
@@ -584,7 +588,40 @@ fn c08_timer() {
 }
 
 fn c08_async(max_items: u32) {
-  let which = e::choose(4);
+  let which = e::choose(5);
+  if which == 4 {
+    // a long stream whose items are all ready: everything is relayed in order, then complete
+    let kind = e::choose(2);
+    let result = e::choose_bool();
+    let probe = fresh_probe();
+    let n = 40usize;
+    let items: Vec<Val> = (0..n).map(|i| Val::c(i as i64)).collect();
+    let mut exec_box: Exec;
+    if result {
+      let st = ScriptStream { items: items.iter().cloned().map(|v| (0u32, Ok::<Val, Val>(v))).collect(), end_pending: 0, endless: false };
+      with_exec!(kind, |sd, exec| {
+        let _u = observable::from_stream_result(st, sd).actual_subscribe(probe);
+        exec_box = exec;
+      });
+    } else {
+      let st = ScriptStream { items: items.iter().cloned().map(|v| (0u32, v)).collect(), end_pending: 0, endless: false };
+      with_exec!(kind, |sd, exec| {
+        let _u = observable::from_stream(st, sd).actual_subscribe(probe);
+        exec_box = exec;
+      });
+    }
+    for _ in 0..12 {
+      exec_box.run();
+    }
+    let got = probe.events();
+    let want = Script { items, term: Tm::Complete };
+    let key = if result { "from_stream_result/long-ready-stream" } else { "from_stream/long-ready-stream" };
+    match model::compare(&got, &want) {
+      Ok(t) => e::check(t, key, || format!("{} of {} items relayed, terminal {}", got.len(), n, if probe.terminated() { "seen" } else { "missing" })),
+      Err(why) => e::fail(key, || format!("{} ; {} of {} items relayed, terminal {}", why, got.iter().filter(|g| matches!(g, Ev::Next(_))).count(), n, if probe.terminated() { "seen" } else { "missing" })),
+    }
+    return;
+  }
   let kind = e::choose(2);
   let probe = fresh_probe();
   let mut exec_box: Exec;
@@ -756,6 +793,8 @@ fn c09_rate_x(max_items: u32, twin: bool) {
     exec_box = exec;
   });
   let exec = &mut exec_box;
+  let cfg09 = format!("{:?}/{}", op, exec.name()).chars().filter(|c| !c.is_ascii_digit() && *c != '(' && *c != ')' && *c != ',' && *c != ' ').collect::<String>();
+  e::cfg_begin(&cfg09);
   e::note(format!("{:?} on {} ; input [{}]", op, exec.name(), script.show()));
   // exact timed models (debounce, throttle): driven by the same executor runs
   let mut want: Vec<Ev> = vec![];
@@ -963,6 +1002,7 @@ fn c09_rate_x(max_items: u32, twin: bool) {
       Tm::None => {}
     },
   }
+  e::cfg_end(&cfg09);
   e::cover("c09-path-complete");
 }
 
@@ -1264,6 +1304,12 @@ fn c16_producers(depth: usize) {
     1 => apply_cutter(cat::hot_tagged(8).take_until(prod).box_it(), cutter),
     _ => apply_cutter(cat::hot_tagged(8).sample(prod).box_it(), cutter),
   };
+  let cfg16 = format!("{}/{}/{}", ["interval", "from_iter", "from_stream"][producer as usize], ["main", "take_until-notifier", "sample-sampler"][pos as usize], owns);
+  // a synchronous unbounded iterator in front of an asynchronous stage never returns from subscribe:
+  // such configurations are legitimately never judged, so the vacuity guard does not apply to them
+  if producer != 1 {
+    e::cfg_begin(&cfg16);
+  }
   let _u = subscribe(piped, probe);
   // drive: the executor runs as timers fall due; the hot main input (if any) emits one item per period
   let mut rounds = 0;
@@ -1306,6 +1352,7 @@ fn c16_producers(depth: usize) {
   if producer != 0 && pulls_after > pulls_at_terminal + 1 {
     e::fail(&format!("producer/{}/keeps-pulling", name), || format!("{} further pulls after the subscriber terminated", pulls_after - pulls_at_terminal));
   }
+  e::cfg_end(&cfg16);
   e::cover("c16-producer-path-complete");
 }
 
@@ -1447,6 +1494,7 @@ fn c02_sched_more(max_items: u32) {
   });
   let exec = &mut exec_box;
   e::note(format!("{} (window/period {}) on {} ; input [{}]", name, w, exec.name(), script.show()));
+  e::cfg_begin(&format!("{}/{}", name, exec.name()));
   let cut_at = e::choose(12) as i64;
   let mut points: i64 = 0;
   let mut cut_done = false;
@@ -1498,6 +1546,7 @@ fn c02_sched_more(max_items: u32) {
   if !cut_done {
     e::prune();
   }
+  e::cfg_end(&format!("{}/{}", name, exec_box.name()));
   e::cover("c02-sched-more-path-complete");
 }
 
@@ -1547,6 +1596,7 @@ fn c13_twin(k: usize) {
     op_name(unary[which - nsched - nbin])
   };
   e::note(format!("{} ; twin subscribes before step {}, unsubscribes before step {}", name, b_at, b_unsub));
+  e::cfg_begin(&name);
   let (a, b, diverged) = e::twice(
     |second| {
       let sd = world::any_sched();
@@ -1626,6 +1676,7 @@ fn c13_twin(k: usize) {
     Ok(t) => e::check(t, &key, detail),
     Err(why) => e::fail(&key, || format!("{} ; {}", why, detail())),
   }
+  e::cfg_end(&name);
   e::cover("c13-twin-path-complete");
 }
 
